@@ -43,7 +43,7 @@ def specPF (ty : String) (fmt : Format) (partial_ : Bool) (o : POpts) (input : L
   match Fmt.ofName ty with
   | none => "-"
   | some f =>
-    if isPlain fmt && !o.lossy then
+    if isPlain fmt then
       let r := fmt.mantissaRadix
       let res := if partial_ then parseStd r fmt.exponentRadix o input else parseStdComplete r fmt.exponentRadix o input
       res.render f r fmt.exponentBase partial_
@@ -78,6 +78,13 @@ def specWF (ty : String) (fmt : Format) (feats : Features) (bits : Nat) (o : WOp
         s!"ok {hexBytes (sign ++ writeDigits fmt feats ds sci o)}"
       " || ".intercalate outs
 
+/-- compact builds use Grisu (not necessarily shortest): only specials and zeros have a byte-level spec -/
+def specWF' (ty : String) (fmt : Format) (feats : Features) (bits : Nat) (o : WOpts) : String :=
+  match Fmt.ofName ty with
+  | none => "-"
+  | some f =>
+    if feats.compact ∧ ¬ (f.isSpecial bits ∨ bits % f.signBit = 0) then "-" else specWF ty fmt feats bits o
+
 def defaultPOpts : List String := ["0", "101", "46", "4e614e", "696e66", "696e66696e697479"]
 def defaultWOpts : List String := ["-", "-", "-", "-", "r", "0", "101", "46", "4e614e", "696e66"]
 
@@ -95,7 +102,16 @@ def judgeRoundTrip (ty : String) (fmt : Format) (o : POpts) (bits : Nat) (out : 
       let back := litBits f r fmt.exponentBase l
       let ds := (l.intDigits ++ l.fracDigits).dropWhile (· = 0)
       let sig := (ds.reverse.dropWhile (· = 0)).length
-      s!"ok {if back = bits then 1 else 0} {sig} {ulpDist back bits}"
+      -- exact equality of the literal's rational value with the float's value
+      let m := ofDigits r (l.intDigits ++ l.fracDigits)
+      let fl := l.fracDigits.length
+      let b := fmt.exponentBase
+      let (ln, ld) : Nat × Nat :=
+        if l.exp ≥ 0 then (m * b ^ l.exp.toNat, r ^ fl) else (m, r ^ fl * b ^ (-l.exp).toNat)
+      let d := f.decode (bits % f.signBit)
+      let (fn, fd) := d.toFrac
+      let exact := (l.exp.natAbs < 5000) && (ln * fd == fn * ld) && (l.neg == f.isNeg bits)
+      s!"ok {if back = bits then 1 else 0} {sig} {ulpDist back bits} {if exact then 1 else 0} {l.intDigits.length} {l.fracDigits.length}"
     | .nan _ => s!"ok {if f.isNaN bits then 1 else 0} 0 0"
     | .inf neg _ => s!"ok {if bits = f.infBits + (if neg then f.signBit else 0) then 1 else 0} 0 0"
     | .err => "err"
@@ -111,10 +127,21 @@ def specOf (feats : Features) (t : List String) : String :=
   | "wi", ty :: f :: v :: _ => specWI ty (fmtOf f) feats (parseIntD v)
   | "dpf", [ty, p, h] => specPF ty Format.standard (p = "1") (pOptsOf defaultPOpts) (unhexBytes h)
   | "pf", ty :: f :: p :: rest => specPF ty (fmtOf f) (p = "1") (pOptsOf (rest.take 6)) (unhexBytes (rest.getD 6 "_"))
-  | "dwf", ty :: b :: _ =>
-    if feats.compact then "-" else specWF ty Format.standard feats ((ofHex b).getD 0) (wOptsOf defaultWOpts)
-  | "wf", ty :: f :: b :: rest =>
-    if feats.compact then "-" else specWF ty (fmtOf f) feats ((ofHex b).getD 0) (wOptsOf (rest.take 10))
+  | "dwf", ty :: b :: _ => specWF' ty Format.standard feats ((ofHex b).getD 0) (wOptsOf defaultWOpts)
+  | "wf", ty :: f :: b :: rest => specWF' ty (fmtOf f) feats ((ofHex b).getD 0) (wOptsOf (rest.take 10))
+  | "jfmt", ty :: f :: b :: rest =>
+    -- formatting model applied to given digits: rest = <10 option fields> <digits hex (values)> <sciexp>
+    match Fmt.ofName ty with
+    | none => "-"
+    | some fl =>
+      let bits := (ofHex b).getD 0
+      let o := wOptsOf (rest.take 10)
+      let ds := unhexBytes (rest.getD 10 "_")
+      let sci := parseIntD (rest.getD 11 "0")
+      let fmt := fmtOf f
+      let sign : List Nat :=
+        if fl.isNeg bits then [45] else if feats.format ∧ fmt.requiredMantissaSign then [43] else []
+      s!"ok {hexBytes (sign ++ writeDigits fmt feats ds sci o)}"
   | "jrt", ty :: f :: rest =>
     judgeRoundTrip ty (fmtOf f) (pOptsOf (rest.take 6)) ((ofHex (rest.getD 6 "0")).getD 0) (unhexBytes (rest.getD 7 "_"))
   | _, _ => "-"
